@@ -71,6 +71,8 @@ def groupdict(m, token):
 
 def match_tag(token, regex=match_tag_prefix_and_name):
     m = regex.match(token)
+    if m is None:
+        raise ParseError("Invalid tag.", token)
     d = groupdict(m, token)
 
     end = m.end()
